@@ -156,7 +156,7 @@ mircheck("C11", "Identity is unique and stable; is_alive / upgrade tell the trut
          "see scenarios", "more than 2 concurrent spawners; more than K spawns per thread; statics at or above 2^62 (wrap-around); atomic operations other than load/store/fetch_add/fetch_sub on the id state (reported inconclusive)", "trace monitors + a z3 interleaving argument over the recorded atomic operations")
 mircheck("C14", "Deadlock detection is complete for sequential ask cycles", SYMEX,
          [m("deadlock_cycles", "self-ask from a handler / from on_run, 2-cycle (ask and ask_with_timeout), 2-cycle closed from on_stop, 3-cycle; every creation order of the edges the scheduler allows", "the closing ask panics with 'Deadlock detected'; no hook is left waiting at quiescence; every client op completes; graph empty"),
-          m("has_path_fn", "every functional graph over 3 (thorough 4) keys: presence and target of each key symbolic, from/to symbolic", "has_path == bounded reachability, as a z3 validity query on every loop path")],
+          m("has_path_fn", "every functional graph over the key universe {1, 2, 65} (thorough {1, 2, 65, 130}: ids that collide modulo 64 / 128) plus a sink: presence and target of each key symbolic, from/to symbolic", "has_path == bounded reachability, as a z3 validity query on every loop path")],
          "cycle length <= 3; graph walk over <= 4 keys", "cycles through type-erased ask (C16 covers the forwarding); real threads", "the feature's real code (task-local scope, mutex, HashMap walk, WaitForGuard) is interpreted; the panic follows the real unwind edges",
          feats=("deadlock-detection",))
 mircheck("C15", "Deadlock detection is sound and leaves no residue", SYMEX,
@@ -174,11 +174,14 @@ mircheck("C20", "Metrics count what happened", SYMEX,
          "see scenario", "wall-clock time (virtual clock); concurrent readers on real threads", "the real MetricsCollector / MessageProcessingGuard code is interpreted; Instant is the virtual clock",
          feats=("metrics",))
 
+CHECKS["C20"]["groups"][-1]["scenarios"].append(m("abandoned", "asks whose caller gives up (timeout / dropped future) before or while the handler runs, tells withdrawn while waiting", "message_count = handlers entered, also for requests nobody waits for any more"))
 CHECKS["C11"]["groups"][-1]["scenarios"].append(m("id_reuse", "an actor ends by one of 7 causes (incl. failed / panicking on_start), then two more actors are spawned", "ids are never reused over time; kept strong and weak handles of the ended actor keep its id"))
 CHECKS["C15"]["groups"][-1]["scenarios"].append(m("deadlock_reply_window", "the callee answers and goes on to a message queued behind the ask whose handler asks the asker back (before or after the asker collected the reply); a hook with two asks in flight at once (join!) whose later-registered ask is answered first, then a reverse ask; all schedules", "every deadlock panic is justified by a chain of UNANSWERED in-flight asks at that moment (oracle computed from the trace: ask registered at first poll, answered when the target's handler returned or the target ended); known finding KF-C15-1 is recognised by its history and reported as such"))
 CHECKS["C15"]["bounds"] = "2-3 actors, <= 3 asks in flight"
 CHECKS["C15"]["outside"] = "more than 3 actors; asks issued from spawned sub-tasks of a handler"
 CHECKS["C08"]["groups"][-1]["scenarios"].append(m("slow_start", "messages (and optionally a stop) arriving while on_start is suspended", "the idle hook is not polled at start-up while a message waits"))
+for _pid in ("C01", "C13"):
+    CHECKS[_pid]["groups"][-1]["scenarios"].append(m("blocking", "the C17 scenario (blocking_tell / blocking_ask with and without timeout, plain thread and spawn_blocking context, full / slow / dying mailbox)", "the same exactly-once / never-after-rejection and dead-letter rules through the blocking API"))
 CHECKS["C02"]["groups"][-1]["scenarios"].append(m("blocking", "the C17 scenario: blocking_tell / blocking_ask from a plain thread and from a spawn_blocking context (runtime handle present), full mailbox, slow actor, followed by stop()", "a blocking send that returned is in the mailbox: later sends and the stop marker cannot overtake it"))
 CHECKS["C10"]["groups"][-1]["scenarios"].append(m("blocking", "the blocking variants given a timeout, including Duration::MAX and handlers with scripted virtual durations", "return by the deadline, Timeout iff the deadline passed, never a panic in the caller"))
 CHECKS["C08"]["groups"][-1]["scenarios"].append(m("long_idle", "on_run returns Ok(true) 140 (thorough 260) times in a row without suspending, then Ok(false); with and without messages", "every scripted invocation happens (no threshold after which idle work silently stops)"))
